@@ -91,6 +91,25 @@ def gen_config(rng, task, quant, qual):
     return cfg
 
 
+def kw_from_names(task, names):
+    """rebuild the keyword arguments of a stored configuration (replays, corpus)"""
+    import AutoCarver.selectors as S
+    kw = {}
+    if task == "classification":
+        pre = [getattr(S, m) for m in names.get("outlier_measures", [])]
+        if names["quant_measure"] == "R_measure":
+            kw["quantitative_measures"] = pre + [S.R_measure]
+        elif pre:
+            kw["quantitative_measures"] = pre + [S.kruskal_measure]
+        if names["qual_measure"] == "cramerv_measure":
+            kw["qualitative_measures"] = [S.cramerv_measure]
+    if names["quant_filter"] == "pearson":
+        kw["quantitative_filters"] = [S.pearson_filter]
+    if names["qual_filter"] == "cramerv":
+        kw["qualitative_filters"] = [S.cramerv_filter]
+    return kw
+
+
 def make_selector(task, cfg, quant, qual):
     from AutoCarver.selectors import ClassificationSelector, RegressionSelector
     cls = ClassificationSelector if task == "classification" else RegressionSelector
